@@ -373,3 +373,58 @@ Section GL.
     a < (fun t => c * t + mid) xi < b.
   Proof. intros _ H. unfold c, mid. split; nra. Qed.
 End GL.
+
+(* ---- polynomials of degree <= d are closed under affine substitution, so the degree of
+       exactness of the reference rule on [-1,1] transfers to [a,b] ---- *)
+Fixpoint peval (l : list R) (y : R) : R := match l with nil => 0 | c0 :: t => c0 + y * peval t y end.
+Fixpoint padd (p q : list R) : list R :=
+  match p, q with
+  | nil, _ => q
+  | _, nil => p
+  | x :: p', y :: q' => (x + y) :: padd p' q'
+  end.
+Lemma peval_padd p q y : peval (padd p q) y = peval p y + peval q y.
+Proof. revert q. induction p as [|x p IH]; intros [|z q]; cbn; try lra. rewrite IH. lra. Qed.
+Lemma padd_length p q : length (padd p q) = Nat.max (length p) (length q).
+Proof. revert q. induction p as [|x p IH]; intros [|z q]; cbn; try reflexivity. rewrite IH. reflexivity. Qed.
+Lemma peval_scale k l y : peval (map (Rmult k) l) y = k * peval l y.
+Proof. induction l as [|x l IH]; cbn; [lra | rewrite IH; lra]. Qed.
+
+Definition poly_le (d : nat) (f : R -> R) : Prop := exists l, (length l <= S d)%nat /\ forall y, f y = peval l y.
+
+Lemma poly_affine c m : forall l, exists l', (length l' <= length l)%nat /\ forall y, peval l (c * y + m) = peval l' y.
+Proof.
+  induction l as [|a0 l [l' [Hlen Hev]]].
+  - exists nil. split; [lia | reflexivity].
+  - (* a0 + (c y + m) q(y), q = l' *)
+    exists (padd (a0 :: nil) (padd (map (Rmult m) l') (0 :: map (Rmult c) l'))). split.
+    + rewrite !padd_length. cbn [length]. rewrite !map_length. lia.
+    + intros y. cbn [peval]. rewrite Hev, !peval_padd. cbn [peval]. rewrite !peval_scale. ring.
+Qed.
+
+Lemma poly_le_affine d f c m : poly_le d f -> poly_le d (fun y => f (c * y + m)).
+Proof.
+  intros [l [Hl Hf]]. destruct (poly_affine c m l) as [l' [Hl' He]].
+  exists l'. split; [lia|]. intros y. rewrite Hf. apply He.
+Qed.
+
+Lemma poly_le_pow k : poly_le k (fun t => t ^ k).
+Proof.
+  induction k as [|k [l [Hl Hf]]].
+  - exists (1 :: nil). split; [cbn; lia | intros y; cbn; lra].
+  - exists (0 :: l). split; [cbn; lia|]. intros y. cbn [pow peval]. rewrite Hf. ring.
+Qed.
+Lemma poly_le_mono d d' f : (d <= d')%nat -> poly_le d f -> poly_le d' f.
+Proof. intros H [l [Hl Hf]]. exists l. split; [lia | exact Hf]. Qed.
+
+(* exact for all polynomials of degree <= d on [-1,1]  ==>  the mapped rule integrates every
+   monomial t^k, k <= d, exactly on [a,b] *)
+Theorem gl_exact_to_degree a b (x w : list R) d : a < b ->
+  (forall g, poly_le d g -> rule_sum x w g = RInt g (-1) 1) ->
+  forall k, (k <= d)%nat -> rule_sum (gl_pts ROps x a b) (gl_wts ROps w a b) (fun t => t ^ k) = RInt (fun t => t ^ k) a b.
+Proof.
+  intros Hab Hex k Hk. apply (gl_affine_exact a b x w (fun t => t ^ k)).
+  - intros t. apply (ex_derive_continuous (fun t => t ^ k)). auto_derive. exact I.
+  - apply Hex. apply (poly_le_affine d (fun t => t ^ k) ((b - a) / 2) ((a + b) / 2)).
+    apply (poly_le_mono k d); [exact Hk | apply poly_le_pow].
+Qed.
